@@ -30,6 +30,15 @@ if REPO != os.path.realpath("/repo"):
 MAX_PRINTED = 25
 
 
+def _pmap_chunk(arg):
+    fn, chunk = arg
+    try:
+        return ("ok", [fn(x) for x in chunk])
+    except BaseException:                                   # noqa: the traceback travels as text
+        import traceback
+        return ("err", traceback.format_exc())
+
+
 class MachineryFailure(RuntimeError):
     pass
 
@@ -188,12 +197,28 @@ class Context(object):
         return keep + out
 
     def pmap(self, fn, items, procs=16, chunksize=None):
+        """Order-preserving parallel map over forked workers.  An exception in a worker is re-raised here as
+        MachineryFailure with the worker's traceback (never pickled as an object: some exception classes do not
+        survive pickling, which makes multiprocessing.Pool.map wait forever), and a worker that dies
+        (segfault, os._exit, OOM kill) ends the map with MachineryFailure instead of hanging."""
         items = list(items)
         if len(items) < 64 or procs <= 1:
             return [fn(x) for x in items]
+        from concurrent.futures import ProcessPoolExecutor
+        from concurrent.futures.process import BrokenProcessPool
         ctxm = multiprocessing.get_context("fork")
-        with ctxm.Pool(procs) as pool:
-            return pool.map(fn, items, chunksize or max(1, len(items) // (procs * 8)))
+        cs = chunksize or max(1, len(items) // (procs * 8))
+        chunks = [items[i:i + cs] for i in range(0, len(items), cs)]
+        out = []
+        try:
+            with ProcessPoolExecutor(max_workers=procs, mp_context=ctxm) as ex:
+                for tag, val in ex.map(_pmap_chunk, [(fn, c) for c in chunks]):
+                    if tag == "err":
+                        raise MachineryFailure("worker raised in pmap(%s):\n%s" % (getattr(fn, "__name__", fn), val))
+                    out.extend(val)
+        except BrokenProcessPool as e:
+            raise MachineryFailure("a pmap worker process died (%s) in %s" % (e, getattr(fn, "__name__", fn)))
+        return out
 
     # ------------------------------------------------------------ violations
     def violation(self, key, detail):
